@@ -416,6 +416,10 @@ def run(rep: Report, prog: Program, tier: str) -> None:
     rep.rule("R3.9", "success/failure verdict on a returned value: should_classify_result is (False, None) iff there is no result classifier or it answers None; otherwise (True, normalised answer); the classifier is asked exactly once about the result itself; nothing else influences the verdict")
     result_verdict(rep, "R3.9", prog)
     rep.floor("R3.9", 4)
+
+    from .common import forwarding_slice
+
+    forwarding_slice(rep, "R3.12", prog, ("abort_if", "budget", "result_classifier", "classifier"), "what decides whether a retry is permitted is what the caller passed: abort_if, budget, classifier and result_classifier reach the runner / the retry component unchanged through every layer incl. the bound contexts (= their obligations of C12 R12.3)")
     # the remaining conjuncts of "retry exactly when permitted" are decided by the rules of the
     # properties that own them; they are re-run here under this property's id
     from .c10 import budget_shape
